@@ -16,8 +16,13 @@ if [ "${MUTANT_SUITE:-0}" = 1 ]; then
 	( cd "$S/repo" && CARGO_TARGET_DIR="/tmp/verif-mut/target-suite-$ID" cargo nextest run --workspace --no-fail-fast --offline 2>&1 | tail -3 )
 fi
 mkdir -p "$S/verif"
-rsync -a --exclude target /verif/harness "$S/verif/"
-cp /verif/known_findings.json "$S/verif/" 2>/dev/null
+if [ "${MUTANT_HEAD:-0}" = 1 ]; then
+	# the committed machinery (used while checkers are being edited in the working tree)
+	git -C /verif archive HEAD harness known_findings.json | tar -x -C "$S/verif"
+else
+	rsync -a --exclude target /verif/harness "$S/verif/"
+	cp /verif/known_findings.json "$S/verif/" 2>/dev/null
+fi
 [ -d /verif/corpus ] && ln -s /verif/corpus "$S/verif/corpus"
 sed -i "s|/repo/|$S/repo/|g" "$S/verif/harness/Cargo.toml"
 grep -rl '"/repo/' "$S/verif/harness" --include=*.rs --include=*.toml 2>/dev/null | xargs -r sed -i "s|\"/repo/|\"$S/repo/|g"
